@@ -756,7 +756,7 @@ def run(ctx):
         ctx.extra.setdefault("model_selftests", []).append("%s: TLC finds a MapsExact counterexample (%s)" % (cfg, what))
 
     # 2. S->C: simulated behaviours of the model replayed into quimb
-    nsim = 150 if quick else 1500
+    nsim = 150 if quick else 800
     res = T.run_tlc("MC_C02", "MC_sim.cfg", ctx.spec_dir, workers=1, coverage=False, simulate="num=%d" % nsim,
                     depth=12, seed=11 + ctx.seed, scratch=ctx.scratch, timeout=900)
     behs = split_behaviours(T.parse_printed_json(res.output))
@@ -772,7 +772,7 @@ def run(ctx):
     ctx.extra["replayed_steps"] = len(recs)
 
     # 3. C->S: random walks over the public API
-    nt, ln = (120, 25) if quick else (1500, 40)
+    nt, ln = (120, 25) if quick else (900, 40)
     wrecs, rejected, kinds = random_walks(ctx.seed, nt, ln, False, 100000)
     rrecs, rej2, kinds2 = random_walks(ctx.seed + 17, nt // 3, ln, True, 200000)
     for r in rrecs:
